@@ -6,3 +6,7 @@ import Woodpile.Model.SlidingDeque
 import Woodpile.Proofs.SlidingDeque
 import Woodpile.Props.C15
 import Woodpile.Model.SortedDeque
+import Woodpile.Proofs.SortedDeque
+import Woodpile.Proofs.SortedDequeOps
+import Woodpile.Proofs.SortedDequeConv
+import Woodpile.Props.C16
